@@ -19,7 +19,8 @@
 //!       `ctxopt:<q|b|g|x|f|r>:<v>` (options inside the proof replaced, verifier expects the replaced ones) |
 //!       `accopt:<q|b|g|x|f|r>:<v>` (verifier accepts only the other option set) | `minsec:<bits>` |
 //!       `field:<name>` | `hasher:<name>` | `desc:<exempt_p|exempt_m|const|assert>`
-//!       output: `<noop|changed> <verdict>`
+//!       output: `<noop|changed|still-valid> <verdict>` (still-valid: a `desc` perturbation the committed trace
+//!       also satisfies — either verdict is sound)
 //!   valid <field> <AirDesc line> <pubs csv|-> <col;col;… each csv>
 //!       the reference predicate on an explicit trace: `ok` | `Kind[i]@s`; COMPARED WITH THE LEAN MODEL
 //!       (`Valid` of Winter/Model/VerifierChecks.lean, theorem file WinterProofs/C02.lean).
@@ -373,6 +374,7 @@ fn exec_stmt(t: &[&str]) -> Outcome {
     let mut acceptable = AcceptableOptions::OptionSet(vec![c.opts.to_options()]);
     let m = c.field.modulus();
     let mut changed = true;
+    let mut still_valid = false;
     let site;
     match pert[0] {
         "none" => {
@@ -488,6 +490,14 @@ fn exec_stmt(t: &[&str]) -> Outcome {
             if vdesc.validate().is_err() {
                 return Outcome::ok("bad-op");
             }
+            // the description is the verifier's own knowledge, not part of the coin seed: a proof may
+            // legitimately be accepted for another description when the committed trace is valid for it
+            // too (e.g. an assertion moved along a constant column, one more exemption for constraints
+            // that vanish identically); only acceptance for a description the trace VIOLATES is a failure
+            if is_valid(&vdesc, c.field, &trace, &vpubs).is_ok() {
+                changed = false;
+                still_valid = true;
+            }
         },
         _ => return Outcome::ok("bad-op"),
     }
@@ -511,12 +521,13 @@ fn exec_stmt(t: &[&str]) -> Outcome {
         },
     };
     match (&r, changed) {
+        _ if still_valid => {},
         (Run::Acc, true) => o = o.fail(site, format!("the proof was accepted for the perturbed statement `{}`", t[5])),
         (Run::Rej(k), false) => o = o.fail("c02.rejected-valid", format!("the unperturbed statement was rejected: {}", k)),
         (Run::VerifyPanic(f), false) => o = o.fail("c02.rejected-valid", format!("the verifier panicked on the unperturbed statement at {}", f)),
         _ => {},
     }
-    o.out = format!("{} {}", if changed { "changed" } else { "noop" }, r.text());
+    o.out = format!("{} {}", if still_valid { "still-valid" } else if changed { "changed" } else { "noop" }, r.text());
     o
 }
 
